@@ -33,6 +33,8 @@ pub mod trusted {
 
 broadcast use {trusted::axiom_filter_key_model, vstd::std_specs::hash::group_hash_axioms};
 
+//@include _shared/std_option_specs.rs
+
 // ---- extracted ---------------------------------------------------------------------------------
 //@item core/src/bus_listener.rs enum BusListenerScope attr=derive(Clone,Copy)
 //@item broker/src/bus_listener.rs struct BusListener
